@@ -113,6 +113,11 @@ class ToExec:
         self.kit.dns_gate = True
         self.kit.sock_gate = True
         self.kit.on_create = self._on_create
+        ct = self._timeout_of("v")
+        # ClientTimeout raises `total` to the largest specific timeout (CHANGES/7274.feature): the
+        # bound that is "configured" is what the public ClientTimeout object says
+        self.eff = {"total": ct.total or 0.0, "connect": ct.connect or 0.0,
+                    "sock_connect": ct.sock_connect or 0.0, "sock_read": ct.sock_read or 0.0}
         self.reqs: Dict[str, Req] = {"v": Req("v"), "b": Req("b")}
         self.events: List[dict] = []
         self.fault_injected = False
@@ -578,7 +583,7 @@ class ToExec:
 
     def trace(self, src: str) -> dict:
         cfg = {"limit": self.limit, "thr": ms(self.thr), "horizon": ms(self.horizon),
-               "to": {k: ms(v) for k, v in self.to.items()}}
+               "to": {k: ms(v) for k, v in self.eff.items()}}
         return {"cfg": cfg, "src": src, "params": self.params, "events": self.events}
 
 
@@ -668,7 +673,7 @@ def parse_action(label: str) -> tuple:
 
 
 def _rec_field(txt: str, name: str) -> Dict[str, str]:
-    m = re.search(name + r" \|-> \[(.*?)\]", txt, re.S)
+    m = re.search(name + r" \|->\s*\[(.*?)\]", txt, re.S)
     return dict(re.findall(r'(\w+) \|-> "?(\w+)"?', m.group(1))) if m else {}
 
 
@@ -678,12 +683,12 @@ def node_info(label: str) -> dict:
     d: Dict[str, Any] = {}
     m = re.search(r"now \|-> (\d+)", txt)
     d["now"] = int(m.group(1)) if m else -1
-    m = re.search(r"ready \|-> (.*?),\s*\n\s*boundary", txt, re.S)
+    m = re.search(r"ready \|->\s*(.*?),\s*\n\s*boundary", txt, re.S)
     head = re.search(r'<<"(\w+)"(?:, "(\w+)")?>>', m.group(1)) if m else None
     d["head"] = (head.group(1), head.group(2)) if head else None
     d["pc"] = _rec_field(txt, "pc")
     d["outcome"] = _rec_field(txt, "outcome")
-    m = re.search(r"scn = \[(.*?)\]", txt, re.S)
+    m = re.search(r"scn =\s*\[(.*?)\]", txt, re.S)
     d["scn"] = dict(re.findall(r'(\w+) \|-> "?(\w+)"?', m.group(1))) if m else {}
     return d
 
@@ -998,9 +1003,9 @@ def free_models(ctx: Ctx) -> List[tuple]:
     """(name, constants, as-coded invariants, also-check-the-repaired-design)"""
     no_su = [i for i in AS_CODED_INV if i != "SessionUsable"]
     ms_ = [
-        ("total<thr L1", dict(TOtotal=3), AS_CODED_INV, True),
+        ("total<thr L1", dict(TOtotal=3), AS_CODED_INV, False),
         ("all four kinds L2", dict(TOtotal=6, TOconnect=5, TOsockc=3, TOread=2, Limit=2), AS_CODED_INV, False),
-        ("sock_read + big chunk (read pause/resume)", dict(TOread=3, BigChunk=True), no_su, True),
+        ("total + sock_read + big chunk (read pause/resume)", dict(TOtotal=6, TOread=3, BigChunk=True), no_su, True),
         ("total>=thr + blocked writer", dict(TOtotal=5, Body="block", AllowPause=True), AS_CODED_INV, False),
         ("sock_read + expect100", dict(TOread=3, Body="small", Expect100=True), AS_CODED_INV, False),
     ]
@@ -1084,7 +1089,7 @@ def run(ctx: Ctx) -> None:
         mc = dict(DEFAULTS)
         mc.update(kw)
         paths, res = scenario_paths(write_cfg("scr", invariants=[], **mc), timeout=ctx.pick(600, 3000),
-                                    per_init=ctx.pick(3, 6))
+                                    per_init=ctx.pick(2, 6))
         ctx.add_model(f"ClientTimeouts[scripted scenarios]({name})", res, exhaustive=True)
         scns = {json.dumps(p["scn"], sort_keys=True) for p in paths}
         nscn += len(scns)
@@ -1114,7 +1119,7 @@ def run(ctx: Ctx) -> None:
         mc = dict(DEFAULTS)
         mc.update(kw)
         behs, _ = simulate_behaviours("ClientTimeouts", write_cfg("sim", invariants=[], **mc),
-                                      num=ctx.pick(80, 1500), depth=45, seed=ctx.seed, timeout=600)
+                                      num=ctx.pick(40, 1500), depth=40, seed=ctx.seed, timeout=600)
         for k, b in enumerate(behs):
             sims.append(replay_path(ctx, loop, path_from_behaviour(b), mc, cutsel=k % 7, body_variant=k % 2,
                                     src="tlc-sim"))
